@@ -14,11 +14,18 @@ impl/src/error.rs:
        two-field tuple whose other field is the backtrace;
     4. a candidate of rule 2/3 marked `#[error(not(source))]` or `#[error(ignore)]` => None;
     5. no candidate => None; `#[error(ignore)]` on the variant => None.
-"Fields marked ignore never change which of the remaining fields is returned" has two readings for tuples
-(the ignored field still counts as a position / the ignored field is removed before rule 3). EXPECT is
-computed under BOTH and a layout on which they differ is *excluded* (Unsettled): the check never demands
-more than the property states. Layouts the rules call ambiguous (two explicit sources, two backtrace
-candidates ...) are excluded as well, not tested for rejection.
+"Fields marked ignore never change which of the remaining fields is returned" settles how an ignored field
+takes part in rule 3: EXPECT of a layout is what the same type WITHOUT the ignore attribute selects, and
+`None` if that selected field is the ignored one.  An ignored field therefore keeps its position:
+`St(#[error(ignore)] i32, Src)` is a two-field tuple without backtrace => None (as `St(i32, Src)`), it is NOT
+turned into a one-field tuple.  The one place where this sentence and doc/error.md ("ignore ... will ignore it
+both for detecting backtrace and source") point in different directions stays excluded (Unsettled): a tuple whose
+ignored field is the only backtrace candidate, `St(Src, #[error(ignore)] Backtrace)` (un-ignored: Some(0); an
+ignored field is no backtrace, hence two non-backtrace fields: None).
+"... and ambiguous selections are compile errors rather than arbitrary choices": layouts the rules call ambiguous
+are not part of the value-level family; those the macro documents as rejected (several explicit `source` /
+`backtrace` marks in one struct / variant, several inferred backtrace candidates) are must-reject
+programs (`rej_*`, discharged by rustc, see MUST_REJECT).
 
 The oracle inside post_source is the language's own field access / address-of; probes are non-zero-sized.
 `std::backtrace::Backtrace` fields are included: Kani's toolchain is a nightly, the harness crate enables
@@ -116,10 +123,18 @@ def expect_reading(shape, fields, drop_ignored):
 
 
 def expect(shape, fields):
+    # the ignored field keeps its position and is no backtrace candidate (doc/error.md "Ignoring fields for derives") ...
     a = expect_reading(shape, fields, False)
-    b = expect_reading(shape, fields, True)
-    if a != b:
-        raise Unsettled
+    # ... and "fields marked ignore never change which of the remaining fields is returned": the selection on the SAME type
+    # without the ignore attributes, None if the selected field is an ignored one
+    try:
+        c = expect_reading(shape, tuple(f._replace(attr=None) if ign(f) else f for f in fields), False)
+    except Ambiguous:
+        c = a           # the un-ignored type is not a program of the family: the sentence does not constrain this layout
+    if c is not None and ign(fields[c]):
+        c = None
+    if a != c:
+        raise Unsettled  # only: a tuple whose ignored field is the sole backtrace candidate (see module doc)
     return a
 
 
@@ -184,6 +199,17 @@ CORE = [
     ("named", (N("other"), N("other2", attr=IGN), N("source"))),
     ("named", (N("other", "i32"), N("source"), N("backtrace", "bt"))),
     ("named", (N("source", attr=IGN), N("backtrace", "bt"), N("other"))),
+    # an ignored field never turns an n-field tuple into an (n-1)-field tuple: EXPECT is the selection of the same type without
+    # the ignore attribute (None for these), ignored field before / after, 2 and 3 fields
+    ("tuple", (P("i32", IGN), P())), ("tuple", (P(), P("i32", IGN))),
+    ("tuple", (P(attr=IGN), P())), ("tuple", (P(), P(attr=IGN))),
+    ("tuple", (P("i32", IGN), P(), P("bt"))), ("tuple", (P(), P("bt"), P("i32", IGN))), ("tuple", (P("bt"), P(attr=IGN), P())),
+    ("tuple", (P(attr=IGN), P("i32", IGN), P())), ("tuple", (P(), P(attr=IGN), P("i32", IGN))),
+    # all fields of one type, the ignored one declared BEFORE the selected one and an enabled one after it: picking a wrong
+    # position still type-checks and is a pointer-identity counterexample
+    ("named", (N("skipped", attr=IGN), N("source"), N("other"))),
+    ("named", (N("skipped", attr=IGN), N("other", attr=S), N("other2"))),
+    ("tuple", (P(attr=IGN), P(attr=S), P())),
 ]
 
 ATTRS = {"src": [None, S, NS, IGN, NB, B, BS], "i32": [None, NS, IGN, NB], "bt": [None, B, NB, IGN, NS]}
@@ -510,6 +536,42 @@ def singles(tier):
     return out
 
 
+# ----------------------------------------------------------------------------------------------------
+# "ambiguous selections are compile errors rather than arbitrary choices": must-reject programs
+# ----------------------------------------------------------------------------------------------------
+# One program per ambiguity that impl/src/error.rs documents as a diagnostic ("Multiple `source` attributes specified. Single attribute
+# per struct/enum variant allowed.", the same for `backtrace`, "Conflicting fields found. ..." for several inferred candidates; several
+# inferred *source* candidates cannot be written: one field name `source` per type, sole field of a tuple).  Each module holds only the
+# type definition + a hand-written Display, every field is well-typed for whichever field an arbitrary choice would pick (so the derive's
+# own diagnostic is the ONLY reason it can fail to compile); rustc rejecting it discharges the obligation, acceptance is `<key>/rejection`.
+MUST_REJECT = [
+    ("rej_st_n_two_explicit_source", "struct", "named", (N("first", attr=S), N("second", attr=S))),
+    ("rej_st_t_two_explicit_source", "struct", "tuple", (P(attr=S), P(attr=S))),
+    ("rej_en_n_two_explicit_source", "enum", "named", (N("first", attr=S), N("second", attr=S))),
+    ("rej_en_t_two_explicit_source", "enum", "tuple", (P(attr=S), P(attr=S))),
+    ("rej_st_n_explicit_source_on_other_and_on_source", "struct", "named", (N("other", attr=S), N("source", attr=S))),
+    ("rej_st_t3_two_explicit_source_around_ignored", "struct", "tuple", (P(attr=S), P("i32", IGN), P(attr=S))),
+    ("rej_en_n3_two_explicit_source_after_plain", "enum", "named", (N("other"), N("second", attr=S), N("third", attr=S))),
+    ("rej_st_t_two_explicit_backtrace", "struct", "tuple", (P("bt", B), P("bt", B), P())),
+    ("rej_st_t_two_backtrace_typed_fields", "struct", "tuple", (P("bt"), P("bt"), P())),
+    ("rej_st_n_backtrace_by_name_and_by_type", "struct", "named", (N("backtrace", "bt"), N("other", "bt"), N("source"))),
+]
+
+
+def reject_program(key, container, shape, fields):
+    body = body_decl(shape, fields, "pub " if container == "struct" else "")
+    if container == "struct":
+        decl = "pub struct St%s%s" % (body, "" if shape == "named" else ";")
+        name = "St"
+    else:
+        decl = "pub enum En {\n    Unit,\n    V%s,\n}" % body
+        name = "En"
+    src = "\nuse crate::common::*;\n\n#[derive(Debug, derive_more::Error)]\n%s\nimpl fmt::Display for %s {\n" \
+          "    fn fmt(&self, _f: &mut fmt::Formatter<'_>) -> fmt::Result { Ok(()) }\n}\n" % (decl, name)
+    title = title_of(container, shape, fields, "", False) + "   [must be rejected: ambiguous selection]"
+    return Program(key, title, src, [], expect_compile=False)
+
+
 GROUP = 8
 THOROUGH_NAMED2 = 400
 THOROUGH_N3 = 600
@@ -595,6 +657,8 @@ def family(tier, seed):
                     "%sV%d%s" % ("#[error(ignore)] " if vg else "", j, body_decl(sh, fs, "")) for j, (sh, fs, vg) in enumerate(ls)))
                 progs.append(enum_program(key, title, vs, generic, pos=idx))
     n_single = len(progs) if tier == "quick" else len(singles(tier))
+    for key, container, shape, fields in MUST_REJECT:
+        progs.append(reject_program(key, container, shape, fields))
     return Family(
         "C09", progs, common_src=COMMON,
         crate_attrs="#![feature(error_generic_member_access)]",
@@ -610,11 +674,16 @@ def family(tier, seed):
         assumptions=["Backtrace-typed fields hold Backtrace::disabled() (source() never reads them); values are wrapped in ManuallyDrop "
                      "(drop glue of Backtrace/Box is not part of the obligation)",
                      "generic programs are verified at the instantiation T = Src (U = i32)",
-                     "layouts on which the two readings of 'ignored fields never change the selection' differ, and `(#[error(backtrace)] E)` "
-                     "without an explicit source, are excluded (the property text does not settle them)"],
+                     "an ignored field keeps its position (EXPECT = selection on the type without the ignore attributes, None if the selected "
+                     "field is ignored); excluded as unsettled: tuples whose ignored field is the only backtrace candidate "
+                     "(`St(Src, #[error(ignore)] Backtrace)`: property sentence vs. doc/error.md) and `(#[error(backtrace)] E)` without an "
+                     "explicit source",
+                     "must-reject programs (rej_*) are type-level obligations discharged by rustc: the only error they can raise is the "
+                     "derive's own diagnostic"],
         rule="one program per layout (field names x types x attributes; struct | enum variant at a rotating position; type flavour) for the "
              "systematic core (%d programs); thorough adds %d layouts of the wider product in groups of <= %d per program (one enum with that "
              "many variants under test, or that many structs behind one harness). Every obligation quantifies over all field values and, "
-             "for enums, over all variants incl. Unit and W(Src); distinct = harnesses discharged" % (n_single, n_tail, GROUP),
+             "for enums, over all variants incl. Unit and W(Src); distinct = harnesses discharged. Plus %d must-reject programs "
+             "(ambiguous selections the derive documents as diagnostics), discharged by rustc" % (n_single, n_tail, GROUP, len(MUST_REJECT)),
         extra_cov={"layouts": n_single + n_tail},
     )
